@@ -42,7 +42,17 @@ def run_c01(ctx):
     r = run_engine(ctx, "mc_script", ["--mode", "c01"])
     if "infra_error" in r:
         return dict(level="model_checking", coverage={"states": 1, "transitions": 1, "traces_validated_against_impl": 0, "samples": ["-"]}, violations=[], infra_error=r["infra_error"])
+    rl = run_engine(ctx, "mc_sig", ["--mode", "locktime"])
+    if "infra_error" in rl:
+        return dict(level="model_checking", coverage={"states": 1, "transitions": 1, "traces_validated_against_impl": 0, "samples": ["-"]}, violations=[], infra_error=rl["infra_error"])
+    r["violations"] = list(r["violations"]) + list(rl["violations"])
+    r["plan"].append("T: CHECKLOCKTIMEVERIFY / CHECKSEQUENCEVERIFY with 22 boundary operands (and their padded forms) under every transaction environment nLockTime {0,100,499999999,500000000,2^32-1} x nSequence {0,10,0x0040000a,2^31,2^32-1,2^32-2} x nVersion {1,2} x {BASE, WITNESS_V0} x 4 flag sets (%d sessions)" % rl["sessions"])
+    r["sessions"] += rl["sessions"]; r["transitions"] += rl["steps"]
+    for k, v in rl["outcomes"].items():
+        r["outcomes"][k] = r["outcomes"].get(k, 0) + v
     vac = []
+    if rl["outcomes"].get("OK", 0) < 1000 or rl["outcomes"].get("UNSATISFIED_LOCKTIME", 0) < 1000:
+        vac.append("lock-time exploration vacuous")
     if r["opcodes_seen"] < 108:
         vac.append("only %d opcodes exercised" % r["opcodes_seen"])
     cov = {
@@ -348,5 +358,5 @@ PROPS = {
     "C18": dict(targets=["mc_bounds"], run=run_c18, replay=replay_engine("mc_bounds")),
     "C04": dict(targets=["mc_hist"], run=run_c04, replay=replay_engine("mc_hist")),
     "C16": dict(targets=["mc_hist"], run=run_c16, replay=replay_engine("mc_hist")),
-    "C01": dict(targets=["mc_script"], run=run_c01, replay=replay_engine("mc_script")),
+    "C01": dict(targets=["mc_script", "mc_sig"], run=run_c01, replay=lambda ctx, path: replay_engine("mc_sig" if '"engine": "mc_sig"' in open(path).read() else "mc_script")(ctx, path)),
 }
